@@ -800,6 +800,36 @@ impl<'a, W: Write> YamlSerializer<'a, W> {
         Ok(())
     }
 
+    /// If an anchor is pending for an enum variant that carries a payload, emit it for the
+    /// variant's own node (the one-entry mapping `Variant: payload`), not for the first scalar
+    /// of the payload: an alias to it must read back as the whole variant.
+    ///
+    /// In value position (`key:` written, space pending) the anchor stays on the key's line,
+    /// `key: &a1`, and the caller starts the variant mapping on the next line as usual.
+    /// Elsewhere (start of a line, or after a list dash) the anchor ends its line and the
+    /// variant label follows on the next one, under the dash if there is one.
+    fn write_anchor_for_variant_node(&mut self) -> Result<()> {
+        if let Some(id) = self.pending_anchor_id.take() {
+            if self.pending_space_after_colon {
+                self.out.write_str(" &")?;
+                self.write_anchor_name(id)?;
+                self.at_line_start = false;
+            } else {
+                if self.at_line_start {
+                    self.write_indent(self.depth)?;
+                }
+                self.out.write_char('&')?;
+                self.write_anchor_name(id)?;
+                self.newline()?;
+                if let Some(d) = self.after_dash_depth {
+                    self.write_indent(d + 1)?;
+                    self.at_line_start = false;
+                }
+            }
+        }
+        Ok(())
+    }
+
     /// Emit an alias `*name`. Adds a newline in block style.
     /// Used when a previously defined anchor is referenced again.
     #[inline]
@@ -1358,6 +1388,7 @@ impl<'a, 'b, W: Write> Serializer for &'a mut YamlSerializer<'b, W> {
             self.out.write_str("}")?;
             return Ok(());
         }
+        self.write_anchor_for_variant_node()?;
         // If we are the value of a mapping key, YAML forbids "key: Variant: value" inline.
         // Emit the variant mapping on the next line indented one level. Also, do not insert
         // a space after the colon when the value may itself be a mapping; instead, defer
@@ -1558,6 +1589,7 @@ impl<'a, 'b, W: Write> Serializer for &'a mut YamlSerializer<'b, W> {
                 first: true,
             });
         }
+        self.write_anchor_for_variant_node()?;
         // Positioned like a struct variant (see `serialize_struct_variant`).
         if self.pending_space_after_colon {
             // Value position after a map key: start the variant mapping on the next line.
@@ -1721,6 +1753,7 @@ impl<'a, 'b, W: Write> Serializer for &'a mut YamlSerializer<'b, W> {
                 first: true,
             });
         }
+        self.write_anchor_for_variant_node()?;
         // If we are the value of a mapping key, YAML forbids keeping a nested mapping
         // on the same line (e.g., "key: Variant:"). Move the variant mapping to the next line
         // indented under the parent mapping's base depth.
